@@ -430,4 +430,7 @@ def run(ctx):
     # the stored fold models and the fold-averaged final model are compacted with wlearner::merge: merging must preserve the sum
     from . import c10
     c10.rule_merge(F, R, rule="R-C11-8")
+    # "the boosting model's prediction is its bias plus the sum of its weak learners' predictions": gboost_model_t::do_predict writes the bias and lets
+    # every learner add to the same buffer, so every weak learner of the factory must accumulate (the rule of C10, over all weak-learner units)
+    c10.rule_accumulate_only(ctx.facts(sorted(set(TUS) | set(c10.TUS))), R, rule="R-C11-9")
     c11_stats.rule_stats_table(F, R, "R-C11-6")
